@@ -619,6 +619,15 @@ func streamBody(c *vfw.Ctx, t *testing.T) {
 					s := base
 					s.Cuts = []int{a, b}
 					do(s)
+					if len(letters) <= 2 {
+						// a short gap followed (or preceded) by a gap just below T8: the deadline counts
+						// from the last byte, not from an earlier arming of the timer
+						for _, dd := range [][2]int{{t8 / 8, below}, {1, below}, {below, t8 / 8}} {
+							g := gap
+							g.Cuts, g.DelaysMS = []int{a, b}, []int{dd[0], dd[1]}
+							do(g)
+						}
+					}
 					if c.Thorough() && len(letters) <= 2 {
 						for _, d1 := range []int{below, above} {
 							for _, d2 := range []int{below, above} {
